@@ -258,7 +258,7 @@ pub fn run(ctx: &Ctx) -> i32 {
             acc.inc("large_cases");
             acc.hist("large_case_shape", &format!("{}-E{}L{}D{}", case.spec.label, ne, case.nl, case.g.dim));
         }
-        let max_sectors = tier.pick(6, 24);
+        let max_sectors = tier.pick(6, 12);
         let sstride = (sectors.len() + max_sectors - 1) / max_sectors;
         let st_meta = Settings::META;
         for (si, order) in sectors.iter().enumerate() {
